@@ -28,10 +28,16 @@ type c05Case struct {
 	Uncounted string // "" | unsigned | unauthorized | tampered
 	DSSE      bool
 	RunDir    bool
+	BadStep   int  // 1+index of the step whose counted links all agree on a product its rules forbid (0 none)
+	RuleLess0 bool // the first step carries no artifact rules at all
 }
 
 func (k c05Case) String() string {
-	return fmt.Sprintf("steps=%d T=%d links=%d diff=%s@%d/%s uncounted=%s dsse=%v rundir=%v", k.Steps, k.Threshold, k.Links, k.DiffKind, k.DiffStep, k.DiffSide, k.Uncounted, k.DSSE, k.RunDir)
+	s := fmt.Sprintf("steps=%d T=%d links=%d diff=%s@%d/%s uncounted=%s dsse=%v rundir=%v", k.Steps, k.Threshold, k.Links, k.DiffKind, k.DiffStep, k.DiffSide, k.Uncounted, k.DSSE, k.RunDir)
+	if k.BadStep > 0 || k.RuleLess0 {
+		s += fmt.Sprintf(" agreed-forbidden-product@%d ruleless-first=%v", k.BadStep-1, k.RuleLess0)
+	}
+	return s
 }
 
 func c05Artifacts(step int) (map[string]string, map[string]string) {
@@ -110,7 +116,25 @@ func runC05(c *core.Ctx) {
 			}
 		}
 	}
-	acc, rej, meta := int64(0), int64(0), int64(0)
+	// the agreed set is what the rules are evaluated against: all counted links of one step agree
+	// on a product that step's rules forbid; with and without a rule-less step in front
+	for _, dsse := range []bool{false, true} {
+		for _, runDir := range []bool{false, true} {
+			for steps := 1; steps <= 4; steps++ {
+				for th := 1; th <= 3; th++ {
+					for bad := 1; bad <= steps; bad++ {
+						for _, rl := range []bool{false, true} {
+							if rl && steps == 1 || c.Quick() && (steps+th+bad)%2 == 0 {
+								continue
+							}
+							cases = append(cases, c05Case{Steps: steps, Threshold: th, Links: th, DiffStep: -1, DSSE: dsse, RunDir: runDir, BadStep: bad, RuleLess0: rl})
+						}
+					}
+				}
+			}
+		}
+	}
+	acc, rej, meta, agreedBad := int64(0), int64(0), int64(0), int64(0)
 	for ci, k := range cases {
 		if !c.Mine(ci) {
 			continue
@@ -134,6 +158,10 @@ func runC05(c *core.Ctx) {
 			}
 			// rules that would flip the verdict if they were evaluated against an uncounted link
 			pr := [][]string{{"REQUIRE", fmt.Sprintf("f%d", s)}, {"DISALLOW", "evil"}, {"ALLOW", fmt.Sprintf("f%d", s)}, {"ALLOW", "common"}, {"DISALLOW", "*"}}
+			if s == 0 && k.Steps > 1 && (ci%3 == 1 && k.BadStep == 0 || k.RuleLess0) {
+				// a first step without any artifact rules (legal): the rules of the following steps still count
+				mr, pr = nil, nil
+			}
 			steps = append(steps, gen.Step(name, k.Threshold, gen.KeyIDs(fn...), mr, pr))
 		}
 		layout := gen.NewLayout(steps, nil, gen.KeyMap(fn...))
@@ -147,6 +175,9 @@ func runC05(c *core.Ctx) {
 			m, p := c05Artifacts(s)
 			for li := 0; li < k.Links; li++ {
 				mats, prods := gen.Artifacts(m), gen.Artifacts(p)
+				if s == k.BadStep-1 {
+					prods["evil"] = intoto.HashObj{"sha256": "66"}
+				}
 				if s == k.DiffStep && li == k.Links-1 {
 					if k.DiffSide == "materials" {
 						applyDiff(mats, k.DiffKind)
@@ -161,6 +192,9 @@ func runC05(c *core.Ctx) {
 			}
 			if s == k.Steps-1 {
 				wantProds = gen.Artifacts(p)
+				if s == k.BadStep-1 {
+					wantProds["evil"] = intoto.HashObj{"sha256": "66"}
+				}
 			}
 		}
 		run := func() VerifyObs {
@@ -171,6 +205,11 @@ func runC05(c *core.Ctx) {
 			return Verify(a)
 		}
 		wantOK := k.DiffStep < 0
+		// a forbidden agreed product is only legal in a step that has no rules
+		forbidden := k.BadStep > 0 && !(k.BadStep == 1 && k.RuleLess0)
+		if forbidden {
+			wantOK = false
+		}
 		detail := map[string]any{"case": k.String()}
 		c.Begin(id)
 		var first VerifyObs
@@ -184,6 +223,10 @@ func runC05(c *core.Ctx) {
 			detail["error"] = errStr(obs.Err)
 			if obs.Accepted() != first.Accepted() {
 				c.Violation("verdict for disagreeing/agreeing counted links depends on iteration order ("+k.DiffKind+")", id, detail)
+				break
+			}
+			if forbidden && obs.Accepted() {
+				c.Violation(fmt.Sprintf("accepted although all counted links of step %d of %d agree on a product its rules forbid (first step rule-less: %v)", k.BadStep-1, k.Steps, k.RuleLess0), id, detail)
 				break
 			}
 			if !wantOK && obs.Accepted() {
@@ -200,6 +243,8 @@ func runC05(c *core.Ctx) {
 		}
 		if wantOK && first.Accepted() {
 			acc++
+		} else if forbidden && !first.Accepted() {
+			agreedBad++
 		} else if !wantOK && !first.Accepted() {
 			rej++
 		}
@@ -238,8 +283,8 @@ func runC05(c *core.Ctx) {
 			}
 		}
 		c.End(id)
-		if k.Links >= 2 || k.Uncounted != "" {
-			c.Class(k.Steps, k.Threshold, k.Links, k.DiffKind, k.DiffStep, k.DiffSide, k.Uncounted, k.DSSE, k.RunDir)
+		if k.Links >= 2 || k.Uncounted != "" || k.BadStep > 0 {
+			c.Class(k.Steps, k.Threshold, k.Links, k.DiffKind, k.DiffStep, k.DiffSide, k.Uncounted, k.DSSE, k.RunDir, k.BadStep, k.RuleLess0)
 		}
 		if ci%211 == 0 {
 			c.Sample("case", detail)
@@ -250,6 +295,7 @@ func runC05(c *core.Ctx) {
 	c.Obs("agreeing_accepted", acc)
 	c.Obs("differing_rejected", rej)
 	c.Obs("metamorphic_pairs_equal", meta)
+	c.Obs("agreed_but_forbidden_rejected", agreedBad)
 	c05Reduce(c, fn)
 }
 
@@ -327,12 +373,12 @@ func init() {
 	core.Register(&core.Property{
 		ID:    "C05",
 		Level: "exploration",
-		Rule: "chains of 1-4 steps (step i consumes the product of step i-1), thresholds 1-3, threshold..3 validly signed authorized links per step; a single difference {added path, dropped path, one digest nibble, renamed algorithm, added algorithm} in the materials or products of one counted link at every step position; uncounted links (unsigned / unauthorized / tampered) with arbitrary other artifacts added to otherwise identical directories (metamorphic pairs; the product rules REQUIRE f_i / DISALLOW evil would flip the verdict if they were evaluated on the uncounted link); 2 wrappers x 2 entry points; every case verified 4 times (the reference link is picked from a map); the summary link is compared with (requested name, agreed materials of the first step, agreed products of the last step); ReduceStepsMetadata called directly with the difference at each of 3 positions x 6 repetitions. " +
+		Rule: "chains of 1-4 steps (step i consumes the product of step i-1), thresholds 1-3, threshold..3 validly signed authorized links per step; a single difference {added path, dropped path, one digest nibble, renamed algorithm, added algorithm} in the materials or products of one counted link at every step position; all counted links of one step (every position) agreeing on a product that step's rules forbid, with and without a rule-less step in front of it (rejected unless the agreeing step itself has no rules); uncounted links (unsigned / unauthorized / tampered) with arbitrary other artifacts added to otherwise identical directories (metamorphic pairs; the product rules REQUIRE f_i / DISALLOW evil would flip the verdict if they were evaluated on the uncounted link); 2 wrappers x 2 entry points; every case verified 4 times (the reference link is picked from a map); the summary link is compared with (requested name, agreed materials of the first step, agreed products of the last step); ReduceStepsMetadata called directly with the difference at each of 3 positions x 6 repetitions. " +
 			"non-trivial = >=2 counted links or an uncounted link with other artifacts; distinct = the case tuple",
 		Assumptions: []string{"every validly signed authorized link counts, also beyond the threshold"},
 		Workers:     func(string) int { return 16 },
 		Floors: func(string) map[string]int64 {
-			return map[string]int64{"agreeing_accepted": 100, "differing_rejected": 100, "metamorphic_pairs_equal": 50}
+			return map[string]int64{"agreeing_accepted": 100, "differing_rejected": 100, "metamorphic_pairs_equal": 50, "agreed_but_forbidden_rejected": 40}
 		},
 		Run:      runC05,
 		TimeoutS: func(t string) int { return 1800 },
